@@ -321,6 +321,7 @@ pub fn train_err_code(e: &anyhow::Error) -> (i64, String) {
         ("Power wheel out is larger than max positive power", 1304),
         ("Power wheel out is larger than max negative power", 1305),
         ("fric_brake.force_max + train_state.res_net() > si::Force::ZERO", 1320),
+        ("Train came to rest at", 1306),
     ];
     for (pat, code) in table { if m.contains(pat) { return (*code, m); } }
     if m.contains("train_state.rs") { return (1211, m); }
@@ -380,7 +381,17 @@ pub struct EnvVer {
     pub pts: Vec<[f64; 3]>,
     pub path: PathTpc,
 }
+/// One observed call of extend_path -> recalc_braking_points.
+pub struct RecalcRec {
+    pub st: TrainState,
+    pub cache: [usize; 4],
+    pub force_max: f64,
+    pub path: PathTpc,
+    pub result: Result<(Vec<[f64; 3]>, usize), (i64, String)>,
+}
 pub struct RunCtx {
+    pub stuck: Option<String>,
+    pub recalcs: Vec<RecalcRec>,
     pub id: String,
     pub tags: Vec<String>,
     pub envs: Vec<EnvVer>,
@@ -444,7 +455,7 @@ fn ss_run_inner(r: &mut Rng, id: String, o: &SsOpts, trunc: Option<bool>) -> Run
     let b = builder(&train, init, false);
     let trace = SpeedTrace::new(times.clone(), speeds.clone(), None);
     let made = catch(std::panic::AssertUnwindSafe(|| b.make_set_speed_train_sim_and_parts(&route.network, &route.path, trace, Some(1))));
-    let mut ctx = RunCtx { id, tags, envs: vec![], rp: [0.0; 4], times: times.clone(), speeds: speeds.clone(), steps: vec![], aborted: None, input, route, finished_ok: false };
+    let mut ctx = RunCtx { stuck: None, recalcs: vec![], id, tags, envs: vec![], rp: [0.0; 4], times: times.clone(), speeds: speeds.clone(), steps: vec![], aborted: None, input, route, finished_ok: false };
     let (mut sim, path) = match made {
         Ok(Ok((sim, _tp, path, _tr, _fb))) => (sim, path),
         Ok(Err(e)) => { ctx.aborted = Some(format!("{:#}", e)); return ctx; }
@@ -481,6 +492,7 @@ pub fn ss_coq(ctx: &RunCtx, s: &StepRec) -> String {
     }
 }
 
+#[derive(Clone)]
 pub struct SlOpts { pub profile: usize, pub size: usize, pub default_consist: bool,
                     pub schedule: u8 /* 0 whole path, 1 link by link ahead of the train */, pub max_steps: usize,
                     pub dt: f64, pub ramp_up_time: Option<f64>, pub clean_start: bool, pub max_total: f64 }
@@ -515,7 +527,7 @@ pub fn sl_run(r: &mut Rng, id: String, o: &SlOpts) -> RunCtx {
     tags.push(format!("dt:{}", o.dt));
     let input = json!({"sim": "speed_limit", "route": route_json(&route), "train": train_json(&train), "schedule": o.schedule, "dt": o.dt,
         "ramp_up_time": o.ramp_up_time});
-    let mut ctx = RunCtx { id, tags, envs: vec![], rp: [0.0; 4], times: vec![], speeds: vec![], steps: vec![], aborted: None, input, route, finished_ok: false };
+    let mut ctx = RunCtx { stuck: None, recalcs: vec![], id, tags, envs: vec![], rp: [0.0; 4], times: vec![], speeds: vec![], steps: vec![], aborted: None, input, route, finished_ok: false };
     let mut sim = match made { Ok(s) => s, Err(m) => { ctx.aborted = Some(m); return ctx; } };
     if !is_strap(&sim.train_res) { ctx.aborted = Some("not strap".into()); return ctx; }
     ctx.rp = res_params(&sim.train_res);
@@ -524,30 +536,49 @@ pub fn sl_run(r: &mut Rng, id: String, o: &SlOpts) -> RunCtx {
     let mut next_link = 0usize;
     let path = ctx.route.path.clone();
     let network = ctx.route.network.clone();
+    let mut recalcs: Vec<RecalcRec> = vec![];
     let mut extend = |sim: &mut SpeedLimitTrainSim, upto: usize, next_link: &mut usize| -> Result<(), String> {
         if upto <= *next_link { return Ok(()); }
         let seg: Vec<LinkIdx> = path[*next_link..upto].to_vec();
         *next_link = upto;
-        match catch(std::panic::AssertUnwindSafe(|| sim.extend_path(&network, &seg))) {
-            Ok(Ok(())) => Ok(()), Ok(Err(e)) => Err(format!("extend_path: {:#}", e)), Err(p) => Err(format!("extend_path panic: {}", p)),
-        }
+        let st = sim.state; let cache = res_cache(&sim.train_res); let force_max = sim.fric_brake.force_max.value;
+        let res = catch(std::panic::AssertUnwindSafe(|| sim.extend_path(&network, &seg)));
+        let (result, ret) = match res {
+            Ok(Ok(())) => { let (pts, idx) = braking_points(sim); (Ok((pts, idx)), Ok(())) }
+            Ok(Err(e)) => { let (c, m) = train_err_code(&e); (Err((c, m.clone())), Err(format!("extend_path: {}", m))) }
+            Err(p) => (Err((-1, p.clone())), Err(format!("extend_path panic: {}", p))),
+        };
+        recalcs.push(RecalcRec { st, cache, force_max, path: sim.path_tpc.clone(), result });
+        ret
     };
     let first = if o.schedule == 0 { path.len() } else {
         // enough links to hold the train plus some track ahead
         let mut acc = 0.0; let mut n = 0; while n < path.len() && acc < tl + 1200.0 { acc += network[path[n].idx()].length.value; n += 1; } n };
-    if let Err(m) = extend(&mut sim, first, &mut next_link) { ctx.aborted = Some(m); return ctx; }
+    if let Err(m) = extend(&mut sim, first, &mut next_link) { ctx.aborted = Some(m); drop(extend); ctx.recalcs = recalcs; return ctx; }
     ctx.envs.push(sl_env(&sim, &ctx.rp));
     let mut k = 0usize;
     loop {
         let end = sim.path_tpc.offset_end().value;
         if o.schedule == 1 && next_link < path.len() && sim.state.offset.value > end - 1500.0 {
             let upto = (next_link + 1 + r.below(3)).min(path.len());
-            if let Err(m) = extend(&mut sim, upto, &mut next_link) { ctx.aborted = Some(m); return ctx; }
+            if let Err(m) = extend(&mut sim, upto, &mut next_link) { ctx.aborted = Some(m); break; }
             ctx.envs.push(sl_env(&sim, &ctx.rp));
             continue;
         }
         let cont = sim.state.offset.value < end - 1000.0 * 0.3048 || (sim.state.offset.value < end && sim.state.speed.value != 0.0);
         if !cont { ctx.finished_ok = true; break; }
+        if sim.state.i > 1 && sim.state.speed.value == 0.0 && sim.state.speed_target.value == 0.0 && sim.state.offset.value < end - 1000.0 * 0.3048
+            && !(o.schedule == 1 && next_link < path.len()) {
+            // at rest, not asked to move, outside the stopping window: walk_internal can never leave its loop
+            // from here unless it reports the situation -- ask the real walk()
+            match real_walk_probe(&sim, 3) {
+                Some(Err(m)) if m.contains("came to rest") => ctx.tags.push("run:rest_outside_window(reported_by_walk)".into()),
+                Some(_) => ctx.tags.push("run:rest_outside_window(walk_returned)".into()),
+                None => { ctx.tags.push("run:rest_outside_window(walk_never_returns)".into());
+                    ctx.stuck = Some(format!("the run does not terminate: the train is at rest at offset {} with target 0, outside the stopping window before the path end {}; walk() did not return within 3 s from this state", sim.state.offset.value, end)); }
+            }
+            break;
+        }
         if k >= o.max_steps { ctx.tags.push("run:truncated".into()); break; }
         let pre = sim.state; let pre_cache = res_cache(&sim.train_res); let pre_fb = fb_of(&sim); let pre_idx = braking_idx(&sim);
         let cl = peek_consist(&sim.loco_con, &sim.path_tpc, pre.offset.value, pre.dt.value);
@@ -562,6 +593,8 @@ pub fn sl_run(r: &mut Rng, id: String, o: &SlOpts) -> RunCtx {
         k += 1;
         if failed { break; }
     }
+    drop(extend);
+    ctx.recalcs = recalcs;
     ctx
 }
 
@@ -640,4 +673,29 @@ pub fn seg_at(t: &[PathResCoeff], x: f64) -> usize {
     let mut i = 0;
     while i + 2 < n && !(x <= t[i + 1].offset.value) { i += 1; }
     i
+}
+
+pub fn recalc_coq(rc: &RecalcRec, rp: &[f64; 4], fix: bool, fuel: usize) -> String {
+    let p = &rc.path;
+    format!("x_recalc {}%N (Build_BrkEnv {} {} {} {} {} {} {}) {} {} {}", fuel, coq_prcs(p.grades()), coq_prcs(p.curves()), coq_rp(rp), coq_sps(p),
+        cf(rc.force_max), cf(p.offset_begin().value), cb(fix), cf(p.offset_end().value), coq_tstate(&rc.st), coq_cache(&rc.cache))
+}
+pub fn outs_points(pts: &[[f64; 3]], idx: usize) -> Outs {
+    let mut o = Outs::new();
+    o.z("v.bp.idx_curr", idx as i64); o.z("v.bp.len", pts.len() as i64);
+    for (i, p) in pts.iter().enumerate() { o.f(&format!("v.bp{}.offset", i), p[0], 1.0); o.f(&format!("v.bp{}.limit", i), p[1], 1.0); o.f(&format!("v.bp{}.target", i), p[2], 1.0); }
+    o
+}
+
+/// Does the real `walk()` return when started from this state?  Run on a clone without history in a
+/// detached thread; None = no answer within `secs` (the thread keeps spinning until the process exits).
+pub fn real_walk_probe(sim: &SpeedLimitTrainSim, secs: u64) -> Option<Result<(), String>> {
+    let mut c = sim.clone();
+    c.set_save_interval(None);
+    let (tx, rx) = std::sync::mpsc::channel();
+    std::thread::spawn(move || {
+        let r = std::panic::catch_unwind(std::panic::AssertUnwindSafe(|| c.walk()));
+        let _ = tx.send(match r { Ok(Ok(())) => Ok(()), Ok(Err(e)) => Err(format!("{:#}", e)), Err(_) => Err("panic".to_string()) });
+    });
+    rx.recv_timeout(std::time::Duration::from_secs(secs)).ok()
 }
